@@ -1,7 +1,7 @@
 // C09 round-2 sections (same oracles as C09.cc: reference evaluator, round trip, independent dump parser).
 //
-//   allbytes  : format_data_string -> parse_data_string with every byte value 0..255 at the first / middle / last position
-//               of otherwise printable texts of length 1..16 (+17, 32, 33) x 2 fillers x 6 mask shapes x both flags x both
+//   allbytes  : format_data_string -> parse_data_string with every byte value 0..255 at every position (length <= 12) / the
+//               first, middle, last position of otherwise printable texts of length 1..16 (+17, 32, 33) x 2 fillers x 6 mask shapes x both flags x both
 //               overloads (explicit and defaulted arguments); every ordered pair of 24 border values of the printable test
 //               at every pair of positions of a 12-byte text; sizes 0 (null pointers) .. 1 MiB + 1
 //   numbers   : # / ## / ### / #### decimals at 2^k-1, 2^k, 2^k+1 (k = 0..64) and their negatives, plain / after $ / masked;
@@ -10,7 +10,7 @@
 //               pairs, 70 000-character strings and comments, 10 001 toggles)
 //   hist      : call histories in ONE process, errno carried from call to call, mask out-parameter never fresh: every
 //               ordered pair, every A-B-A and ordered triples over 32 parser texts x {mask, no mask}, 12 format_data_string
-//               states, 18 hex-dump states (sizes, addresses, flag sets, prev / no prev, COLLAPSE / not, colour / not, iovec
+//               states, 19 hex-dump states (sizes, addresses, flag sets, prev / no prev, COLLAPSE / not, colour / not, iovec
 //               splits, all API families) and a mixed alphabet of 18 steps from all three
 //   contexts  : every step of those alphabets inside a catch handler, in a destructor during unwinding, in a noexcept
 //               function through std::function, on a fresh second thread, and with 7 ambient errno values
@@ -41,7 +41,7 @@ VF_SECTION(allbytes, 16, 16, 120) {
   for (size_t len : lens) {
     for (int filler = 0; filler < 2; filler++) {
       vector<size_t> positions;
-      if (r.thorough() && len <= 33) for (size_t p = 0; p < len; p++) positions.push_back(p);
+      if (len <= (r.thorough() ? 33u : 12u)) for (size_t p = 0; p < len; p++) positions.push_back(p);
       else {
         positions.push_back(0);
         if (len / 2 > 0 && len / 2 != len - 1) positions.push_back(len / 2);
@@ -132,7 +132,7 @@ VF_SECTION(allbytes, 16, 16, 120) {
       }
     }
   }
-  r.bound = string("format_data_string -> parse_data_string: every byte value 00..FF at ") + (r.thorough() ? "every position (len <= 33) / first, middle, last" : "the first / middle / last position") +
+  r.bound = string("format_data_string -> parse_data_string: every byte value 00..FF at ") + (r.thorough() ? "every position (len <= 33) / first, middle, last" : "every position (len <= 12) / the first, middle, last position") +
       " of printable texts of length 1..16, 17, 32, 33" + (r.thorough() ? ", 24, 64, 65, 100" : "") + " x 2 fillers (letters; the 16 characters a \" \\ LF TAB ' ? / space $ # % < * z CR) x 6 mask shapes (none, all on, all off, alternating, only that byte off, only that byte on) x flags {0, HEX_ONLY} x std::string and (pointer, size) overloads with explicit and defaulted arguments; every ordered pair of the 24 border values {00 01 08 09 0A 0B 0C 0D 0E 1B 1F 20 22 27 3F 5C 7E 7F 80 85 9F A0 FE FF} at " +
       (r.thorough() ? "every pair of positions" : "the position pairs that touch an end or are adjacent") + " of a 12-byte text x 3 masks; empty data through null pointers; sizes 4095, 4096, 4097, 65535, 65536, 65537, " + (r.thorough() ? "4 Mi + 1" : "1 Mi + 1") + " x {printable, binary, printable with a final form feed} x {no mask, run-16 mask}";
 }
@@ -247,6 +247,14 @@ VF_SECTION(numbers, 8, 8, 120) {
     if (!r.take()) continue;
     if (r.wants_desc()) r.desc("parse_data_string(" + vf::show(t) + ", ALLOW_FILES)");
     check_parse(r, t, exact, "ALLOW_FILES without a file construct: ", phosg::ParseDataFlags::ALLOW_FILES);
+    // defaulted arguments: parse_data_string(s) and parse_data_string(s, &mask) are the calls with flags = 0
+    string text(t), m1 = "stale", m3 = "stale", d1, d2, d3;
+    string oc = vf::outcome([&] {
+      d1 = phosg::parse_data_string(text, &m1);
+      d2 = phosg::parse_data_string(text);
+      d3 = phosg::parse_data_string(text, &m3, 0);
+    });
+    if (oc != "ok" || d1 != d3 || d2 != d3 || m1 != m3) r.fail("parse_data_string:defaulted-arguments-differ", [&] { return "parse_data_string(" + vf::show(text) + "): " + oc + "; (s, &mask) -> " + hexs(d1) + "/" + hexs(m1) + ", (s) -> " + hexs(d2) + ", (s, &mask, 0) -> " + hexs(d3) + "/" + hexs(m3); });
   }
   r.bound = vf::fmt("parse_data_string: #/##/###/#### + 2^k-1, 2^k, 2^k+1 for k = 0..64, positive and negative, in 4 surroundings ($, ?, neighbours); ordered pairs of 24 boundary numbers x 16 width pairs x 3 separators; %zu float tokens at the float/double range borders as %% and %%%% x 3 surroundings, all ordered pairs x 4 kind pairs, next to 7 integers x 4 widths in both orders; 10 long texts (65 537 hex pairs, 70 000-character comments and strings, 10 001 toggles, 20 000 constructs, 1000-digit and 400-digit numbers); 10 construct texts with ALLOW_FILES; reference evaluator decides wherever the documented syntax settles the result", NFLOAT);
 }
@@ -267,13 +275,13 @@ VF_SECTION(hist, 16, 16, 180) {
   for (size_t i = 0; i < 6; i++) M.push_back(P[i]);
   for (size_t i = 0; i < 6; i++) M.push_back(F[i]);
   for (size_t i = 0; i < 6; i++) M.push_back(D[i]);
-  // parser: pairs and A-B-A over all 64 (text, mask mode) steps; triples over the first 12 texts with the shared mask (thorough: all 32)
-  enumerate_histories(r, P, r.thorough() ? np : 12, exact, "parse_data_string");
+  // parser: pairs and A-B-A over all 64 (text, mask mode) steps; triples over the first 16 texts with the shared mask (thorough: all 32)
+  enumerate_histories(r, P, r.thorough() ? np : 16, exact, "parse_data_string");
   enumerate_histories(r, F, 0, exact, "format_data_string");
-  enumerate_histories(r, D, r.thorough() ? 0 : 10, exact, "format_data");
+  enumerate_histories(r, D, 0, exact, "format_data");
   enumerate_histories(r, M, 0, exact, "mixed");
   r.bound = vf::fmt("histories of calls in one process with errno carried from each call to the next and a non-empty shared mask object: parse_data_string: %zu (text, mask/no mask) steps: all ordered pairs, all A-B-A, all ordered triples over the first %zu; format_data_string: %zu (data, mask, flags, overload) states: all ordered pairs and triples; format_data/print_data: %zu (size, pattern, address, flags, prev, API, iovec split) states: all ordered pairs, all A-B-A, all ordered triples over %s; mixed alphabet of 6 + 6 + 6 steps: all ordered pairs and triples; every call compared with its memoryless oracle (reference evaluator / round trip / dump parser)",
-      P.size(), r.thorough() ? np : (size_t)12, F.size(), D.size(), r.thorough() ? "all" : "the first 10");
+      P.size(), r.thorough() ? np : (size_t)16, F.size(), D.size(), "all of them");
 }
 
 // =====================================================================================================
@@ -369,7 +377,7 @@ VF_SECTION(contexts, 8, 8, 180) {
       } else r.ok(cx < 7 ? "ambient errno value" : cname);
     }
   }
-  r.bound = vf::fmt("%zu steps (36 parser texts, 12 format_data_string states, 18 hex-dump states) x 12 contexts: errno in {0, ERANGE, EINVAL, EINTR, ENOENT, EDOM, ENOMEM} right before the call; inside a catch handler; in a destructor while another exception unwinds; in a noexcept function through std::function; on a fresh thread; on a second thread after the main thread", S.size());
+  r.bound = vf::fmt("%zu steps (36 parser texts, 12 format_data_string states, 19 hex-dump states) x 12 contexts: errno in {0, ERANGE, EINVAL, EINTR, ENOENT, EDOM, ENOMEM} right before the call; inside a catch handler; in a destructor while another exception unwinds; in a noexcept function through std::function; on a fresh thread; on a second thread after the main thread", S.size());
 }
 
 // =====================================================================================================
@@ -858,11 +866,17 @@ VF_SECTION(files, 1, 1, 120) {
     }
   }
   // outcomes that are not settled by the statement: executed only (no crash, no hang)
-  for (const char* t : {"<missing>", "<x", "<", "<>", "00 <x", "<x\n>", "4<x>1"}) {
+  vector<string> loose = {"<missing>", "<x", "<", "<>", "00 <x", "<x\n>", "4<x>1"};
+  for (size_t len : {255, 256, 257, 4096, 70000}) {
+    loose.push_back("<" + string(len, 'n') + ">");  // a name longer than any file-name limit (the file does not exist)
+    loose.push_back("00 <" + string(len, 'n'));     // ... and never closed
+  }
+  for (const string& t : loose) {
     if (!r.take()) continue;
-    if (r.wants_desc()) r.desc("parse_data_string(" + vf::show(t) + ", ALLOW_FILES) [executed, not compared]");
+    if (r.wants_desc()) r.desc("parse_data_string(" + abbrev(t) + ", ALLOW_FILES) [executed, not compared]");
     string data, mask;
-    string oc = vf::outcome([&] { data = phosg::parse_data_string(string(t), &mask, phosg::ParseDataFlags::ALLOW_FILES); });
+    ExactStr es(t);
+    string oc = vf::outcome([&] { data = phosg::parse_data_string(exact ? es.str() : t, &mask, phosg::ParseDataFlags::ALLOW_FILES); });
     r.ok("dont-care: malformed or missing file (" + oc + ")");
   }
   for (const NamedFile& nf : FILES) unlink(nf.name);
